@@ -1,6 +1,6 @@
 (* Properties/C03.v — Every eligible target ends up scraped by exactly one shard. *)
 From KV Require Import Base.Util Base.AMap Base.Sched Gen.Consts Model.Coordinator Model.CoordCheck Model.Sidecar Model.World
-                       Proofs.CoordBasics Proofs.CoordC01 Proofs.WorldProofs Proofs.CoordStable Proofs.WorldNoGap.
+                       Proofs.CoordBasics Proofs.CoordC01 Proofs.WorldProofs Proofs.CoordStable Proofs.WorldNoGap Proofs.CoordHandover.
 Local Open Scope list_scope.
 Local Open Scope Z_scope.
 
@@ -98,6 +98,22 @@ Example C03_example_converges :
   placement (obs_of_world w5) = [[(11%N, Normal); (12%N, Normal)]; [(10%N, Normal)]] /\
   placement_eqb (obs_of_world w5) (obs_of_world w6) = true.
 Proof. vm_compute. repeat split. Qed.
+
+(* ---- "every target ... is scraped by exactly one shard in normal state, no transfer is pending" ----
+   the cleaning step of one cycle: whatever the in-sync shards report of a discovered target - duplicates on any number of
+   shards, pending transfers with or without partner -, once every copy has been scraped three times the plan after
+   this cycle's garbage collection and recovery pass has it on exactly one in-sync shard, in normal state; for every
+   order in which the shards are visited (later stages of the cycle only add: C04, C05) *)
+Theorem C03_one_normal_copy_after_cleaning : forall o i s h,
+  NoDupReports i -> is_active (i_active i) h = true ->
+  (exists k, insync i k = true /\ In h (akeys (reported i k))) ->
+  (forall k c, insync i k = true -> afind h (reported i k) = Some c -> (3 <= c_times c)%N) ->
+  let p1 := st_p1 (run_stages o i s) in
+  exists w, insync i w = true /\
+    (exists c', afind h (scr_of (nth_si p1 w)) = Some c' /\ c_state c' = Normal) /\
+    forall j, j <> w -> insync i j = true -> afind h (scr_of (nth_si p1 j)) = None.
+Proof. exact single_normal_after_gc_and_recovery. Qed.
+Print Assumptions C03_one_normal_copy_after_cleaning.
 
 (* ---- "further cycles then change nothing" ----
    settled: every shard in sync; every reported copy is of a discovered target, in normal state, and no target is on
